@@ -2,6 +2,8 @@ package rules
 
 import (
 	"fmt"
+	"go/token"
+	"go/types"
 	"math/big"
 	"sort"
 	"strings"
@@ -253,7 +255,158 @@ func decimalNumbers(x *Ctx) {
 			}
 		}
 	}
+	guardedAccumulators(x)
 	if n == 0 {
 		x.C.Obl("C12.R8", "decimal:none", x.pos(parse), "no strconv conversion is reachable from Parse in the selector package: numbers are converted by hand, which this rule does not decide", true, "")
 	}
+}
+
+// noNarrowing (C12.R7): the numbers of a selector (indexes, slice bounds: up to 2^53-1 by Parse's own check) are
+// kept and used at full width. Any conversion of a 64-bit integer to a narrower integer type in package selector
+// (int32 fields "to avoid padding", int16 counters) wraps large values into small ones: .[4294967296] would
+// select element 0. Conversions of constants are exempt.
+func noNarrowing(x *Ctx) {
+	size := func(t types.Type) (bits int, isInt bool) {
+		b, ok := t.Underlying().(*types.Basic)
+		if !ok || b.Info()&types.IsInteger == 0 {
+			return 0, false
+		}
+		switch b.Kind() {
+		case types.Int8, types.Uint8:
+			return 8, true
+		case types.Int16, types.Uint16:
+			return 16, true
+		case types.Int32, types.Uint32:
+			return 32, true
+		}
+		return 64, true
+	}
+	bad, n := "", 0
+	for _, f := range x.P.ModuleFuncs() {
+		if !x.P.IsLibrary(f) || !strings.HasSuffix(x.P.PkgPathOf(f), "/pkg/policy/selector") {
+			continue
+		}
+		for _, b := range f.Blocks {
+			for _, in := range b.Instrs {
+				c, ok := in.(*ssa.Convert)
+				if !ok {
+					continue
+				}
+				if _, isConst := c.X.(*ssa.Const); isConst {
+					continue
+				}
+				from, ok1 := size(c.X.Type())
+				to, ok2 := size(c.Type())
+				if !ok1 || !ok2 {
+					continue
+				}
+				n++
+				if from == 64 && to < 64 {
+					bad += fmt.Sprintf("%s: %s converts a %d-bit integer to %s: a number within the bounds Parse accepts wraps\n", x.P.Pos(c.Pos()), load.ShortName(f), from, c.Type())
+				}
+			}
+		}
+	}
+	x.C.Obl("C12.R7", "full-width", "-", fmt.Sprintf("none of the %d integer conversions in package selector narrows a 64-bit value", n), bad == "", dedupLines(bad))
+}
+
+// guardedAccumulators (C12.R8): a number converted by hand (n = n*10 + digit in a loop) wraps silently on long
+// digit strings: 18446744073709551617 becomes 1. Every loop of package selector that multiplies a loop-carried
+// integer by a constant and adds to it must compare that integer (or the length of the text it reads) with a
+// constant inside the loop or on the way into it; strconv does this itself.
+func guardedAccumulators(x *Ctx) {
+	for _, f := range x.P.ModuleFuncs() {
+		if !x.P.IsLibrary(f) || !strings.HasSuffix(x.P.PkgPathOf(f), "/pkg/policy/selector") || len(f.Blocks) == 0 {
+			continue
+		}
+		for _, l := range paths.Info(f).Loops {
+			for _, phi := range l.HeaderPhis() {
+				if _, ok := size64(phi.Type()); !ok {
+					continue
+				}
+				// phi = phi*const + something along a back edge
+				acc := false
+				for i, e := range phi.Edges {
+					if !l.Body[phi.Block().Preds[i]] {
+						continue
+					}
+					if add, ok := e.(*ssa.BinOp); ok && (add.Op == token.ADD || add.Op == token.SUB) {
+						for _, side := range []ssa.Value{add.X, add.Y} {
+							if mul, ok := side.(*ssa.BinOp); ok && mul.Op == token.MUL {
+								_, cx := mul.X.(*ssa.Const)
+								_, cy := mul.Y.(*ssa.Const)
+								if (mul.X == ssa.Value(phi) && cy) || (mul.Y == ssa.Value(phi) && cx) {
+									acc = true
+								}
+							}
+						}
+					}
+				}
+				if !acc {
+					continue
+				}
+				// a comparison of the accumulator (or of a value derived from it) with a constant inside the loop,
+				// or of a length with a constant anywhere in the function
+				guarded := false
+				for _, b := range f.Blocks {
+					for _, in := range b.Instrs {
+						cmp, ok := in.(*ssa.BinOp)
+						if !ok {
+							continue
+						}
+						switch cmp.Op {
+						case token.LSS, token.LEQ, token.GTR, token.GEQ:
+						default:
+							continue
+						}
+						_, cx := cmp.X.(*ssa.Const)
+						_, cy := cmp.Y.(*ssa.Const)
+						if !cx && !cy {
+							continue
+						}
+						other := cmp.X
+						if cx {
+							other = cmp.Y
+						}
+						if l.Body[b] && derivesFrom(other, phi, 0) {
+							guarded = true
+						}
+						if c, ok := other.(*ssa.Call); ok {
+							if bi, ok := c.Call.Value.(*ssa.Builtin); ok && bi.Name() == "len" {
+								guarded = true
+							}
+						}
+					}
+				}
+				x.C.Obl("C12.R8", "accumulator:"+load.ShortName(f), x.P.Pos(phi.Pos()), "a number accumulated digit by digit is compared with a bound (or the length of its text is) before it can wrap", guarded,
+					"the loop multiplies "+phi.Name()+" by a constant and adds to it with no comparison against a constant: a long digit string wraps around 2^64 into a small number")
+			}
+		}
+	}
+}
+
+func size64(t types.Type) (int, bool) {
+	b, ok := t.Underlying().(*types.Basic)
+	if !ok || b.Info()&types.IsInteger == 0 {
+		return 0, false
+	}
+	return 64, true
+}
+
+func derivesFrom(v ssa.Value, root ssa.Value, depth int) bool {
+	if v == root {
+		return true
+	}
+	if depth > 4 {
+		return false
+	}
+	switch t := v.(type) {
+	case *ssa.BinOp:
+		return derivesFrom(t.X, root, depth+1) || derivesFrom(t.Y, root, depth+1)
+	case *ssa.Convert:
+		return derivesFrom(t.X, root, depth+1)
+	case *ssa.UnOp:
+		return derivesFrom(t.X, root, depth+1)
+	}
+	return false
 }
